@@ -10,7 +10,7 @@
    hand-written activity table is kept below as a second reading and exercised by a watchdog
    run on a real agent. *)
 From Coq Require Import List ZArith Bool Lia.
-From Corro Require Import Model.WritePool Model.LockSeq Gen.LockOrder Proofs.WritePoolProofs.
+From Corro Require Import Model.WritePool Model.LockSeq Gen.LockOrder Proofs.WritePoolProofs Proofs.LockSeqProofs.
 Import ListNotations.
 Open Scope Z_scope.
 
@@ -123,6 +123,61 @@ Proof.
   pose proof C20_source_lock_sites_are_ordered as H. rewrite forallb_forall in H. exact (H t (Hin t Ht)).
 Qed.
 Print Assumptions C20_source_activities_never_deadlock.
+
+(* "Every mix ... completes".  Threads run acquire / release sequences under mutual exclusion
+   of every lock (a thread's acquire is possible only while no other thread holds the lock).
+   For EVERY rank function and EVERY list of threads whose remaining sequences are ordered at
+   every point and release what they took: while somebody has work left somebody's next step
+   is possible (no mix is stuck); a possible step keeps the discipline and shortens the work
+   left by one (so every run of possible steps is finite and can only end with all done). *)
+Theorem C20_ordered_threads_progress : forall (rank : Z -> Z) (ts : list thr),
+  Forall (thr_ok rank) ts -> all_done ts = false ->
+  exists pre t post, ts = pre ++ t :: post /\ enabled_in (pre ++ post) t = true.
+Proof. exact ordered_threads_progress. Qed.
+Print Assumptions C20_ordered_threads_progress.
+
+Theorem C20_ordered_threads_step : forall (rank : Z -> Z) pre t post,
+  Forall (thr_ok rank) (pre ++ t :: post) -> enabled_in (pre ++ post) t = true ->
+  Forall (thr_ok rank) (pre ++ thr_step t :: post) /\
+  (work (pre ++ thr_step t :: post) + 1 = work (pre ++ t :: post))%nat.
+Proof. exact ordered_threads_step. Qed.
+Print Assumptions C20_ordered_threads_step.
+
+(* every lock-taking function of the source releases what it took *)
+Theorem C20_source_activities_are_balanced :
+  forallb (fun a => match end_held (snd a) [] with [] => true | _ => false end) src_activities = true.
+Proof. vm_compute. reflexivity. Qed.
+Print Assumptions C20_source_activities_are_balanced.
+
+(* any number of threads, each starting any lock-taking function of the CURRENT source, in any
+   mix: all of them complete *)
+Theorem C20_every_mix_of_source_activities_completes : forall ts : list thr,
+  (forall t, In t ts -> exists a, In a src_activities /\ t = mkThr (snd a) []) ->
+  exists ts', runs ts ts' /\ all_done ts' = true.
+Proof.
+  intros ts Hts. apply (ordered_threads_complete src_rank (work ts) ts eq_refl).
+  apply Forall_forall. intros t Ht. destruct (Hts t Ht) as (a & Ha & ->).
+  apply start_ok.
+  - pose proof C20_source_lock_sites_are_ordered as H. unfold src_points in H.
+    rewrite forallb_forall in H. apply forallb_forall. intros x Hx. apply H.
+    apply in_flat_map. exists a. split; assumption.
+  - pose proof C20_source_activities_are_balanced as H. rewrite forallb_forall in H.
+    specialize (H a Ha). destruct (end_held (snd a) []); [reflexivity|discriminate].
+Qed.
+Print Assumptions C20_every_mix_of_source_activities_completes.
+
+(* two threads taking the connection and one actor's bookkeeping in opposite orders: both are
+   balanced, the second is not ordered, and the mix has a reachable state with work left in
+   which nobody can step *)
+Example C20_opposite_orders_get_stuck :
+  let a := [Acq 0; Acq 10; Rel 10; Rel 0] in
+  let b := [Acq 10; Acq 0; Rel 0; Rel 10] in
+  forallb (ordered src_rank) (points b []) = false /\
+  let s := [thr_step (mkThr a []); thr_step (mkThr b [])] in
+  all_done s = false /\
+  enabled_in [nth 1 s (mkThr [] [])] (nth 0 s (mkThr [] [])) = false /\
+  enabled_in [nth 0 s (mkThr [] [])] (nth 1 s (mkThr [] [])) = false.
+Proof. vm_compute. repeat split; reflexivity. Qed.
 
 (* the generated table is not empty and contains the writers the property names *)
 Example C20_source_table_nonvacuous :
